@@ -601,6 +601,7 @@ class Dataset(_Handle):
         self.file._check_open()
         if self.file.readonly:
             raise OSError("Can't write data (no write intent on file)")
+        _check_convertible(self.node.dtype, data)
         self.node.oplog.append(("write", key, data))
         shape = self.node.shape
         whole = key is Ellipsis or key == () or (isinstance(key, slice) and key == slice(None))
@@ -633,6 +634,29 @@ class Dataset(_Handle):
             self.node.value = items if items is not None else None
         else:
             self.node.value = None
+
+
+def _is_numeric_dtype(dt):
+    try:
+        return _np.issubdtype(_np.dtype(dt), _np.number) or _np.dtype(dt) == _np.bool_
+    except Exception:
+        return False
+
+
+def _check_convertible(dtype, data):
+    """libhdf5/NumPy refuse text in a numeric dataset (conversion fault)."""
+    if not _is_numeric_dtype(dtype):
+        return
+    def bad(x, depth=0):
+        if isinstance(x, (str, bytes)):
+            return True
+        if depth < 3 and isinstance(x, (list, tuple)):
+            return any(bad(e, depth + 1) for e in x)
+        if isinstance(x, _np.ndarray) and x.dtype.kind in "USO":
+            return any(bad(e, depth + 1) for e in x.ravel().tolist())
+        return False
+    if bad(data):
+        raise ValueError("could not convert string to number (fakeh5 conversion fault)")
 
 
 def _shallow(v):
@@ -705,9 +729,15 @@ def uninstall():
 # ---------------------------------------------------------------------------
 # snapshots of the raw tree (used by "a refused call leaves the file as it was")
 # ---------------------------------------------------------------------------
-def snapshot(store):
-    """Canonical, comparable picture of the whole store incl. hard-link structure."""
+def snapshot(store, normalize=True):
+    """Canonical, comparable picture of the whole store incl. hard-link structure.
+    normalize: groups without attributes and without members (empty container
+    groups, which no API call can observe) are left out."""
     ids = {}
+
+    def invisible(node):
+        return normalize and isinstance(node, GNode) and not node.attrs and \
+            all(invisible(c) for c in node.links.values())
 
     def nid(node):
         if id(node) not in ids:
@@ -723,7 +753,7 @@ def snapshot(store):
         if isinstance(node, GNode):
             out[k] = None
             out[k] = ("g", tuple(sorted((a, _canon(v)) for a, v in node.attrs.items())),
-                      tuple((name, rec(ch)) for name, ch in node.links.items()))
+                      tuple((name, rec(ch)) for name, ch in node.links.items() if not invisible(ch)))
         else:
             out[k] = ("d", tuple(sorted((a, _canon(v)) for a, v in node.attrs.items())),
                       tuple(node.shape), repr(node.dtype), _canon(node.value))
@@ -825,6 +855,8 @@ def _script(h5, path):
     obs.append(("require-again", tuple(top.require_dataset("d", shape=(2,), dtype="f8").shape)))
     obs.append(("require-mismatch", ex(lambda: top.require_dataset("d", shape=(4,), dtype="f8"))[1]))
     obs.append(("has-data-class", top.get("d", getclass=True) is h5.Dataset))
+    obs.append(("text-into-f8", ex(lambda: ds.__setitem__(slice(None), ["a", "b"]))[0],
+                ex(lambda: ds.__setitem__(slice(None), "abc"))[0]))
     obs.append(("ds-parent", top["d"].parent.name, top["d"].name))
     f.flush()
     f.close()
